@@ -251,6 +251,7 @@ def main():
     prop = a.prop
     tier = a.tier
     seed = int(os.environ.get("VERIF_SEED", "0") or 0)
+    os.environ["VERIF_TIER_RUN"] = tier
     t0 = time.time()
     spec = registry.PROPERTIES[prop]
     obls = [o for o in spec["obligations"] if tier == "thorough" or o.get("tier", "quick") == "quick"]
